@@ -209,8 +209,10 @@ def exhaustive_histories(mci, outs, max_len):
 def eval_program(arg) -> dict:
     seed, stream, scratch, tier = arg
     common.import_dznpy()
+    # every other program: the granting enumerator X stands after an enumerator NotX
     prog, case, rng = progrun.make_program(PROP, seed, stream, scratch, True,
-                                           mc_decoys='literal' if stream % 3 == 2 else 'both')
+                                           mc_decoys='literal' if stream % 3 == 2 else 'both',
+                                           mc_enum_family=stream % 2 == 1)
     out = {'violations': [], 'counts': {}}
     flavor = 'plain'
     if not progrun.build_or_report(prog, case, out, [flavor]):
@@ -226,6 +228,9 @@ def eval_program(arg) -> dict:
             others.append((ev.name, cx.reply_info(ev.reply).get('n', 0)))
     cnt = out['counts']
     cnt['programs'] = 1
+    cnt['granting_value_is_suffix_of_an_earlier_enumerator'] = int(any(
+        f != case['cfg']['multiclient']['reply'][0] and f.endswith(case['cfg']['multiclient']['reply'][0])
+        for f in mci.get('fields', [])))
     cnt['claim_event_literally_named_Claim'] = 1 if mci['claim'] == 'Claim' else 0
     cnt['decoy_events_present'] = 1 if any(o[0] in ('Claim', 'Release') for o in others) else 0
     if not cx_outs:
@@ -290,6 +295,7 @@ def main(tier: str) -> int:
     n = 6 if tier == 'quick' else 40
     run.require('histories', 'out_events_judged', 'in_events_judged', 'deliveries_to_holder',
                 'handlers_reconnected', 'histories_with_handlers_connected_late',
+                'granting_value_is_suffix_of_an_earlier_enumerator',
                 'deliveries_to_nobody', 'decoy_events_present', 'histories_exhaustive_part')
     scratch = run.scratch()
     progrun.drive(run, eval_program, [(run.seed, i, scratch, tier) for i in range(n)])
